@@ -88,6 +88,16 @@ CHECKS = {
          "Trusted: Lean kernel + standard axioms; rank mapping of ordered scalars; pandas max/min skip missing values (contract). "
          "UTF-8 byte order = code point order is assumed for text (enumerated by the harness, not proved).",
          "Lean 4 proof + per-chunk correspondence and brute-force oracle", "§6 C04"),
+ "C08": ("Lean 4 theorems about the split/placement/path layer of directory partitioning: groups are written in strictly increasing key "
+         "order, every row of a group carries the group's key, the group of a key holds exactly the rows with that key in their "
+         "original order, no empty group is written, and the number of rows written equals the number of rows with non-null keys "
+         "(no loss, no duplication); splitting a joined path returns the segments and hive name=value directories round-trip for any "
+         "number of levels when names and value texts contain neither '/' nor '='. The grouping model is tied to the part files "
+         "written per incoming row group; the text round trip of partition VALUES (float, timestamp, numeric-looking text, bool) is an "
+         "assumption exercised on the real code by the harness oracle (placement per part file, multiset of rows, value kinds).",
+         "Trusted: Lean kernel + standard axioms; pandas groupby(sort=True). Outside the model: path_string/val_to_num/val_from_meta "
+         "value text, pandas categoricals for partition columns.",
+         "Lean 4 proof + part-file correspondence and oracle", "§6 C08"),
 }
 
 def main():
